@@ -50,6 +50,12 @@ def pool(cfg, A=10):
         H("h1", 1, N, N, h0 + pd + 30, pd + 30, decl=max(1, A // 2), decl_len=-2),   # fixed-amount invoice + lower amount field
         H("h1", 1, N, N, h0 + pd + 30, pd + 30, decl=A + 1, decl_len=-2),            # ... + higher amount field
     ]
+    # the onion declares more for this part than the HTLC really carries
+    inflated = [
+        H("h1", 1, 1, N, h0 + pd + 15, pd + 15, fwd_amt=N),
+        H("h1", 1, p2, N, h0 + pd + 25, pd + 25, fwd_amt=N),
+        H("h1", 1, p1, N, h0 + pd + 10, pd + 10, fwd_amt=p1 + 3),
+    ]
     h2 = [
         H("h2", 4, p1, N, h0 + pd + 12, pd + 12),
         H("h2", 4, p2, N, h0 + pd + 22, pd + 22),
@@ -60,7 +66,7 @@ def pool(cfg, A=10):
         H("h1", 3, p2, N, h0 + pd + 20, pd + 20, decl=A, decl_len=-2),
         H("h1", 3, p2, N, h0 + pd + 20, pd + 20, decl=A - 1, decl_len=-2),   # conflicting declared amount
     ]
-    return {"good": good, "bad": bad, "other": other, "h2": h2, "amtless": amtless}
+    return {"good": good, "bad": bad, "other": other, "h2": h2, "amtless": amtless, "inflated": inflated}
 
 PROBE = [H("h1", 1, 11, 11, 100 + 40 + 50, 90)]
 POLICIES = [  # (cfg, amount): varied policies (C12: the failure carries exactly the configured policy)
@@ -76,6 +82,8 @@ def rand_scenario(rng, family, policies=False):
         cfg["mpp"] = rng.choice([0, 1, 3])
     if rng.random() < 0.2:
         cfg["selfhints"] = False
+    if rng.random() < 0.3:
+        cfg["paytimeout"] = rng.choice([1, 2, 3])     # short payment timeout: a waitsendpay timeout, if requested, can fire
     p = pool(cfg, A)
     hs = []
     if family == "base":
@@ -84,6 +92,19 @@ def rand_scenario(rng, family, policies=False):
             hs.append(rng.choice(p["bad"]))
         if rng.random() < 0.3:
             hs.append(rng.choice(p["other"]))
+        if rng.random() < 0.25:
+            hs.append(rng.choice(p["inflated"]))
+    elif family == "replay":
+        # expiries close to the policy delta, a chain that grows, relative expiries derived at delivery: a replayed
+        # HTLC then has a lower relative expiry than at its first delivery
+        pd = cfg["pdelta"]; h0 = cfg["h0"]
+        N = need_of(cfg, A); p1 = N // 2 + 1
+        hs = [H("h1", 1, p1, N, h0 + pd + rng.choice([0, 1, 2]), pd), H("h1", 1, N - p1, N, h0 + pd + rng.choice([1, 2, 5]), pd)]
+        if rng.random() < 0.5:
+            hs = [H("h1", 1, N, N, h0 + pd + rng.choice([0, 1, 3]), pd)]
+        cfg["mpp"] = rng.choice([2, 4])
+        return {"cfg": cfg, "invs": invs_for(A), "htlcs": hs, "derive_rel": True,
+                "probe": [H("h1", 1, N, N, h0 + pd + 50, pd + 50)]}
     elif family == "amtless":
         hs = rng.sample(p["amtless"], rng.randint(1, 3))
         if rng.random() < 0.3:
@@ -131,6 +152,7 @@ def rand_jobs(seed, n, families, crashes=(0, 1), wfaults=0, rfaults=0, probes=0,
             r["steps"] = rng.randint(50, 90)
         if "late_from" in scen:
             r["late_from"] = scen.pop("late_from")
+        derive = scen.pop("derive_rel", False)
         if scen.pop("stage", False):
             r["staged"] = True
             r["steps"] = rng.randint(70, 120)
@@ -143,7 +165,12 @@ def rand_jobs(seed, n, families, crashes=(0, 1), wfaults=0, rfaults=0, probes=0,
             r["direct"] = direct
             r["maxparts"] = rng.choice([0, 1, 2, 3])
             scen["htlcs"] = []
-        jobs.append({"run": start_run + k, "scen": scen, "rand": r, "probes": probes, "tag": fam})
+        job = {"run": start_run + k, "scen": scen, "rand": r, "probes": probes, "tag": fam}
+        if derive:
+            job["derive_rel"] = True
+            r["heights"] = True
+            r["crashes"] = 1
+        jobs.append(job)
     return jobs
 
 
